@@ -126,6 +126,28 @@ func (vr *ValueRun) Run(cfg hx.Config) (*hx.Meta, error) {
 					Cmd: "./drv cases.txt (twice)", Output: firstDiff(res.Stdout, res2.Stdout)})
 			}
 			meta.CountSafe("two-process-comparisons")
+			// a third process makes the same calls in the reverse order: what a call returns must not depend
+			// on the calls made before it (scratch state kept between calls, capacities left over, ...)
+			cl := strings.Split(strings.TrimRight(cases.String(), "\n"), "\n")
+			rev := make([]string, len(cl))
+			for i := range cl {
+				rev[len(cl)-1-i] = cl[i]
+			}
+			res3 := p.RunDriver(strings.Join(rev, "\n") + "\n")
+			o1 := strings.Split(strings.TrimRight(res.Stdout, "\n"), "\n")
+			o3 := strings.Split(strings.TrimRight(res3.Stdout, "\n"), "\n")
+			if res3.Exit == 0 && len(o1) == len(cl) && len(o3) == len(cl) {
+				for i := range o1 {
+					if o1[i] != o3[len(cl)-1-i] {
+						meta.AddDirect(hx.Direct{Class: low + "-history-dependent", What: "the result of a call depends on the calls made before it in the same process",
+							Cmd: "./drv cases.txt  vs  ./drv cases-reversed.txt", Output: hx.Truncate(o1[i], 1500) + "\n--- the same call after the calls that followed it ---\n" + hx.Truncate(o3[len(cl)-1-i], 1500)})
+						break
+					}
+				}
+				meta.CountSafe("reversed-order-comparisons")
+			} else if res3.Exit != 0 {
+				meta.AddDirect(hx.Direct{Class: low + "-driver-failed", What: "driver crashed on the reversed case list", Cmd: "./drv cases-reversed.txt", Output: hx.Truncate(res3.Out, 3000)})
+			}
 		}
 		obsFiles[b] = filepath.Join(cfg.Out, fmt.Sprintf("%s-batch%02d.obs", low, b))
 		errs[b] = os.WriteFile(obsFiles[b], []byte(res.Stdout), 0o644)
